@@ -312,13 +312,12 @@ fn custom_scalar_ok(_name: &str, v: &CV) -> bool {
 // typed traversal of a document: the places mutation operators work on
 
 enum Site<'x> {
-    Op(&'x mut OpDef),
     Frag(&'x mut FragDef),
     VarDef(&'x mut VarDef),
     /// a selection set whose parent type is known; `root_of` = it belongs to the root level of an operation
     Sel { sel: &'x mut SelSet, parent: &'x str, root_of: Option<OpKind> },
     Field { f: &'x mut Field, parent: &'x str, def: Option<&'x FieldDef> },
-    Inline { i: &'x mut Inline, parent: &'x str },
+    Inline { i: &'x mut Inline },
     Spread { sp: &'x mut Spread },
     /// a position where a value of type `ty` is expected (argument, list item, input field, variable default)
     Value { v: &'x mut PVal, ty: &'x Ty, konst: bool },
@@ -400,7 +399,7 @@ impl<'s> Walk<'s> {
                     }
                 }
                 Selection::Inline(i) => {
-                    cb(Site::Inline { i: &mut *i, parent });
+                    cb(Site::Inline { i: &mut *i });
                     self.dirs(&mut i.directives, "INLINE_FRAGMENT", cb);
                     let p = i.cond.as_ref().map(|c| c.s.clone()).unwrap_or_else(|| parent.to_string());
                     if self.sch.is_composite(&p) && !i.sel.items.is_empty() {
@@ -422,7 +421,6 @@ fn each_site(doc: &mut Doc, sch: &Sch, skip_typename: bool, cb: &mut dyn FnMut(S
         match def {
             Def::Op(o) => {
                 let kind = o.kind;
-                cb(Site::Op(&mut *o));
                 for vd in o.vars.iter_mut() {
                     cb(Site::VarDef(&mut *vd));
                     let ty = vd.ty.ty.clone();
@@ -1522,11 +1520,41 @@ const PRESERVING: [(&str, Operator); 6] = [
     ("single-value-for-list", v_single_value_for_list),
 ];
 
+/// probe helper: select, at the root of a query or mutation, a field that takes an argument satisfying `want`, and
+/// give it that argument (so that the construct under probe exists in the document)
+fn ensure_root_field(m: &mut M<'_>, s: &mut dyn Src, want: &dyn Fn(&ArgDef) -> bool) {
+    let sch = m.sch;
+    let kind = m.first_op().kind;
+    if kind == OpKind::Subscription {
+        return;
+    }
+    let root = match sch.root(kind) {
+        Some(r) => r.to_string(),
+        None => return,
+    };
+    let cands: Vec<FieldDef> = sch.ty(&root).map(|t| t.fields.iter().filter(|f| f.args.iter().any(|a| want(a))).cloned().collect()).unwrap_or_default();
+    if cands.is_empty() {
+        return;
+    }
+    let fd = &cands[s.choose(cands.len())];
+    let mut f = fld(&fd.name, Some("zp"));
+    for a in &fd.args {
+        if want(a) || (a.ty.is_nn() && a.default.is_none()) {
+            f.args.push((Name::new(a.name.clone()), PVal::new(gen_input_literal(sch, &Ty::nn(a.ty.nullable().clone()), s, 0))));
+        }
+    }
+    if sch.is_composite(fd.ty.base()) {
+        f.sel = typename_sel();
+    }
+    m.first_op().sel.items.push(Selection::Field(f));
+}
+
 /// probe operator: break one input-object literal in the way `excl.force_input_kind` says
 fn op_probe_input_object(m: &mut M<'_>, s: &mut dyn Src) -> bool {
     let sch = m.sch;
     let is_input = |ty: &Ty| matches!(ty.nullable(), Ty::Named(n) if sch.kind(n) == Some(Kind::Input));
     // make sure an input-object argument is given somewhere
+    ensure_root_field(m, s, &|a| is_input(&a.ty));
     mutate_nth(&mut m.doc, sch, m.excl.typename, s, &|x| matches!(x, Site::Field { f, def: Some(d), .. } if d.args.iter().any(|a| is_input(&a.ty) && !f.args.iter().any(|(n, _)| n.s == a.name))), &mut |x, s| {
         if let Site::Field { f, def: Some(d), .. } = x {
             for a in d.args.iter().filter(|a| is_input(&a.ty)) {
@@ -1553,6 +1581,7 @@ fn op_probe_input_object(m: &mut M<'_>, s: &mut dyn Src) -> bool {
 fn op_probe_enum_string(m: &mut M<'_>, s: &mut dyn Src) -> bool {
     let sch = m.sch;
     let is_enum = |ty: &Ty| matches!(ty.nullable(), Ty::Named(n) if sch.kind(n) == Some(Kind::Enum));
+    ensure_root_field(m, s, &|a| is_enum(&a.ty));
     mutate_nth(&mut m.doc, sch, m.excl.typename, s, &|x| matches!(x, Site::Field { f, def: Some(d), .. } if d.args.iter().any(|a| is_enum(&a.ty) && !f.args.iter().any(|(n, _)| n.s == a.name))), &mut |x, s| {
         if let Site::Field { f, def: Some(d), .. } = x {
             for a in d.args.iter().filter(|a| is_enum(&a.ty)) {
@@ -1591,6 +1620,7 @@ fn op_probe_variable_directive(m: &mut M<'_>, s: &mut dyn Src) -> bool {
 fn op_probe_unsupplied_variable(m: &mut M<'_>, s: &mut dyn Src) -> bool {
     let sch = m.sch;
     let fits = |a: &ArgDef| matches!(a.ty.nullable(), Ty::List(_)) || matches!(a.ty.nullable(), Ty::Named(n) if sch.ty(n).map_or(false, |t| t.kind == Kind::Input && !t.one_of && !t.input_fields.is_empty()));
+    ensure_root_field(m, s, &|a| fits(a));
     let snapshot = M { sch, doc: Doc::default(), vars: IndexMap::new(), op_name: None, extra_text: String::new(), extra_defs: 0, excl: m.excl };
     let mut new_var: Option<VarDef> = None;
     let ok = mutate_nth(&mut m.doc, sch, m.excl.typename, s, &|x| matches!(x, Site::Field { def: Some(d), .. } if d.args.iter().any(|a| fits(a))), &mut |x, s| {
@@ -1702,6 +1732,7 @@ fn op_probe_int_range(m: &mut M<'_>, s: &mut dyn Src) -> bool {
             return true;
         }
     }
+    ensure_root_field(m, s, &|a| a.ty.nullable() == &Ty::named("Int"));
     mutate_nth(&mut m.doc, sch, m.excl.typename, s, &|x| matches!(x, Site::Field { f, def: Some(d), .. } if d.args.iter().any(|a| a.ty.base() == "Int" && !f.args.iter().any(|(n, _)| n.s == a.name))), &mut |x, s| {
         if let Site::Field { f, def: Some(d), .. } = x {
             for a in d.args.iter().filter(|a| a.ty.base() == "Int") {
@@ -1746,7 +1777,8 @@ struct Plan {
     open: Vec<(String, Quirks)>,
     /// probe streams: always apply this operator
     force: Option<(&'static str, Operator)>,
-    only_subscriptions: bool,
+    /// operation kinds the generator may choose
+    ops: Vec<OpKind>,
     omitted_var_with_arg_default: bool,
 }
 
@@ -1805,7 +1837,7 @@ fn run_case(s: &mut dyn Src, target: &Target<'_>, plan: &Plan) -> Case {
     // a valid request
     let mut tcfg = TypedCfg::default();
     tcfg.omitted_var_with_arg_default = plan.omitted_var_with_arg_default;
-    tcfg.ops = if plan.only_subscriptions { vec![OpKind::Subscription] } else { vec![OpKind::Query, OpKind::Query, OpKind::Mutation, OpKind::Subscription] };
+    tcfg.ops = plan.ops.clone();
     let mut td = gen_typed_doc(sch, s, &tcfg);
     let mut stripped = false;
     if let Some(Def::Op(o)) = td.doc.defs.first_mut() {
@@ -1890,7 +1922,9 @@ fn judge(target: &Target<'_>, sch: &Sch, world: Option<&World>, m: &mut M<'_>, l
     let inp = Input { sch, doc: &m.doc, op_name: m.op_name.as_deref(), vars: &m.vars, non_executable_defs: m.extra_defs, custom_scalar_ok: &custom_scalar_ok };
     let spec: Report = validate_full(&inp, Quirks::default());
     if !spec.dont_care.is_empty() {
-        return Case::discard(format!("don't care: {}", spec.dont_care[0]));
+        // one reason per kind: variable names are left out
+        let reason: String = spec.dont_care[0].split(' ').filter(|w| !w.starts_with('$')).collect::<Vec<_>>().join(" ");
+        return Case::discard(format!("don't care: {}", reason));
     }
     let rules = spec.rules();
     let rendered = format!(
@@ -2151,7 +2185,7 @@ pub fn run(ctx: &mut Ctx) {
     for (id, _) in &open {
         ctx.excluded(id);
     }
-    let plan = Plan { excl, open: open.clone(), force: None, only_subscriptions: false, omitted_var_with_arg_default: !ctx.open("C06-F1") };
+    let plan = Plan { excl, open: open.clone(), force: None, ops: vec![OpKind::Query, OpKind::Query, OpKind::Mutation, OpKind::Subscription], omitted_var_with_arg_default: !ctx.open("C06-F1") };
 
     if let Ok(p) = std::env::var("C09_PROBE") {
         probe_file(&p, &schema, &tap, &static_sch);
@@ -2211,7 +2245,7 @@ pub fn run(ctx: &mut Ctx) {
         }
         let mut p = plan.clone();
         p.force = Some((label, f));
-        p.only_subscriptions = subs;
+        p.ops = if subs { vec![OpKind::Subscription] } else { vec![OpKind::Query] };
         p.excl.force_input_kind = kind;
         match id {
             "C09-F1" => p.excl.var_position = false,
@@ -2227,7 +2261,7 @@ pub fn run(ctx: &mut Ctx) {
             _ => {}
         }
         let name = format!("probe-{}", id);
-        ctx.stream(&name, n / 10, 700, |s| if s.bool() { run_case(s, &Target::Dynamic, &p) } else { run_case(s, &st_target, &p) });
+        ctx.stream(&name, n / 10, 700, |s| if s.chance(1, 3) { run_case(s, &Target::Dynamic, &p) } else { run_case(s, &st_target, &p) });
     }
 
     for r in RULES {
